@@ -77,20 +77,21 @@ def outputParamSize (cfg : PwlFnCfg) (inLast : Option Nat) : Int :=
   (numKeypoints inLast : Int) - b2i cfg.clampMax - b2i cfg.clampMin - b2i cfg.cyclic
     + b2i cfg.missingInput.isSome - b2i cfg.missingOutput.isSome
 
-/-- `_verify_pwl_calibration` (every rejection is a `ValueError`).
+/-- `_verify_pwl_calibration` (every rejection is a `ValueError`; current tree: a zero input range is
+rejected, ff5f96e, and 3-dimensional output parameters may have a unit axis of size 1, ab7779b).
 `inLast` = last dimension of `keypoint_input_parameters` (`none` when omitted), `outRank3` = the
 output parameters are 3-dimensional, `outRows` / `outLast` = their 2nd / last dimension,
 `inputCols = inputs.shape[1]`. -/
 def verifyPwlFn (cfg : PwlFnCfg) (inLast : Option Nat) (outRank3 : Bool) (outRows outLast : Nat)
     (inputCols : Nat) : Except Err Unit :=
-  if cfg.inMin > cfg.inMax then .error .valueError
+  if cfg.inMin ≥ cfg.inMax then .error .valueError
   else if !cfg.increasing && (cfg.clampMin || cfg.clampMax) then .error .valueError
   else if cfg.outMin > cfg.outMax then .error .valueError
   else if cfg.increasing && cfg.cyclic then .error .valueError
   else if cfg.missingOutput.isSome && cfg.missingInput.isNone then .error .valueError
   else if outputParamSize cfg inLast ≤ 0 then .error .valueError
   else if decide (cfg.units > 1) && !outRank3 then .error .valueError
-  else if outRank3 && decide (outRows ≠ cfg.units) then .error .valueError
+  else if outRank3 && decide (outRows ≠ 1 ∧ outRows ≠ cfg.units) then .error .valueError
   else if (outLast : Int) ≠ outputParamSize cfg inLast then .error .valueError
   else if decide (inputCols > 1) && decide (inputCols ≠ cfg.units) then .error .valueError
   else .ok ()
@@ -292,16 +293,17 @@ def sparsify (f I U : Nat) (cdfs : List (List Rat)) : List (List Rat) :=
 def reduceMeanRows (U : Nat) (m : List (List Rat)) : List Rat :=
   (List.range U).map fun u => meanL (m.map (fun row => getR row u))
 
-/-- divisibility / shape checks of `CDF.build` and `_verify_cdf_params` (`ValueError`);
-`.error .other` stands for the places where the real code does NOT reject but returns NaN
-(mean over an empty axis: no basis function, no input) or divides by a zero factor: the model
-refuses to invent a value there -/
+/-- divisibility / shape checks of `CDF.build` and `_verify_cdf_params` (`ValueError`), in the order of
+`_verify_cdf_params`; a location / kernel tensor without keypoints (`shape[2] < 1`) is rejected with the
+other shape checks (current tree, fixes 4d4b844 / 575725d). `.error .other` stands for the two places
+where the real code does NOT raise a `ValueError`: a zero sparsity factor (`ZeroDivisionError`) and an
+input without columns (mean over an empty axis) -/
 def verifyCdf (f I U K W locI : Nat) : Except Err Unit :=
   if f = 0 then .error .other
   else if U % f ≠ 0 then .error .valueError
   else if I % f ≠ 0 then .error .valueError
-  else if locI ≠ I ∨ W ≠ U / f then .error .valueError
-  else if K = 0 ∨ I = 0 then .error .other
+  else if locI ≠ I ∨ K = 0 ∨ W ≠ U / f then .error .valueError
+  else if I = 0 then .error .other
   else .ok ()
 
 /-- reduction stage shared by both code paths: `'none'` returns the `(input_dim / factor, units)`
@@ -315,6 +317,8 @@ def reduceStage (red : Reduction) (f I U : Nat) (cdfs : List (List Rat)) : List 
 /-- `CDF.call` for one example -/
 def layerCall (a : Activation) (σ : Rat → Rat) (red : Reduction) (f U : Nat) (scale : List Rat)
     (kernel : List (List (List Rat))) (K W : Nat) (x : List Rat) : Except Err (List (List Rat)) := do
+  -- `CDF.__init__`: `if num_keypoints < 1 or units < 1: raise ValueError`
+  if K = 0 ∨ U = 0 then .error .valueError
   verifyCdf f x.length U K W kernel.length
   pure (reduceStage red f x.length U (layerCdfs a σ scale kernel K W x))
 
